@@ -71,10 +71,32 @@ type failure struct {
 	ns     int64
 	msg    string
 	seenIn string // informational: function observed by the watchdog
+	phase  string // phase the case had entered when it killed its worker or ran out of time ("" = decoding)
 }
 
+// fp: <entry>/<class>/<site>. When a case kills its worker or runs out of
+// time AFTER its decoder returned (use step, second entry point of a composite
+// target) the phase is part of the entry component. In the families that set
+// caseClass (recursive.go) the third component of such a failure is the class
+// of the INPUT: the frame at which a runaway recursion happens to hit the
+// stack limit is arbitrary.
 func (f failure) fp() string {
-	return report.FPEscape(f.g.t.entry + "/" + f.class + "/" + f.site)
+	entry, site := f.g.t.entry, f.site
+	if f.abort() {
+		short := entry[strings.LastIndex(entry, ".")+1:]
+		ph := strings.TrimPrefix(strings.TrimPrefix(f.phase, short), ":")
+		if ph != "" {
+			entry += ":" + ph
+		}
+		if f.g.caseClass != nil {
+			site = f.g.caseClass(f.idx, f.phase)
+		}
+	}
+	return report.FPEscape(entry + "/" + f.class + "/" + site)
+}
+
+func (f failure) abort() bool {
+	return strings.HasPrefix(f.class, "fatal:") || f.class == "time>budget"
 }
 
 // ------------------------------------------------------------ worker process
@@ -203,7 +225,21 @@ func crashInfo(stderr string) (class, site, msg string) {
 		}
 	}
 	low := strings.ToLower(stderr)
+	// memory refused while a goroutine stack was being grown (under the
+	// address-space cap the copy of a stack of several MiB may not fit): the
+	// defect is the runaway recursion, as when the stack limit is reached
+	stackGrowth := false
+	if i := strings.Index(stderr, "\nruntime stack:\n"); i >= 0 {
+		sys := stderr[i:]
+		if j := strings.Index(sys, "\n\ngoroutine "); j >= 0 {
+			sys = sys[:j]
+		}
+		stackGrowth = strings.Contains(sys, "runtime.stackalloc(") || strings.Contains(sys, "runtime.copystack(") || strings.Contains(sys, "runtime.newstack(")
+	}
 	switch {
+	case stackGrowth && (strings.Contains(low, "out of memory") || strings.Contains(low, "cannot allocate")):
+		class = "fatal:stack-overflow"
+		msg += " (while growing a goroutine stack)"
 	case strings.Contains(low, "out of memory") || strings.Contains(low, "cannot allocate"):
 		class = "alloc>budget"
 	case strings.Contains(low, "stack overflow") || strings.Contains(low, "stack exceeds"):
@@ -241,6 +277,7 @@ func runSegment(p *proc, g *group, lo, hi int, s sink, budget time.Duration, sto
 		return lo, false, fmt.Errorf("cannot talk to worker: %v", e)
 	}
 	last := -1
+	phase := ""
 	lastLine := time.Now()
 	tick := time.NewTicker(250 * time.Millisecond)
 	defer tick.Stop()
@@ -257,7 +294,7 @@ func runSegment(p *proc, g *group, lo, hi int, s sink, budget time.Duration, sto
 					return last + 1, false, fmt.Errorf("worker died in case %s#%d without a crash report (exit: %v) stderr=%q",
 						g.name(), last, p.cmd.ProcessState, tail(p.stderr.String(), 300))
 				}
-				s.onFail(failure{g: g, idx: last, class: class, site: site, msg: msg})
+				s.onFail(failure{g: g, idx: last, class: class, site: site, msg: msg, phase: phase})
 				s.onCase(last, 0, 0, "killed:"+class)
 				return last + 1, false, nil
 			}
@@ -269,6 +306,11 @@ func runSegment(p *proc, g *group, lo, hi int, s sink, budget time.Duration, sto
 			case 'B':
 				if len(l) > 2 {
 					last, _ = strconv.Atoi(l[2:])
+				}
+				phase = ""
+			case 'P':
+				if len(l) > 2 {
+					phase = l[2:]
 				}
 			case 'C':
 				f := strings.SplitN(l, " ", 3)
@@ -298,7 +340,7 @@ func runSegment(p *proc, g *group, lo, hi int, s sink, budget time.Duration, sto
 					idx, _ = strconv.Atoi(f[1])
 					seen = f[2]
 				}
-				s.onFail(failure{g: g, idx: idx, class: "time>budget", site: seen, ns: int64(budget), seenIn: seen,
+				s.onFail(failure{g: g, idx: idx, class: "time>budget", site: seen, ns: int64(budget), seenIn: seen, phase: phase,
 					msg: fmt.Sprintf("still running after %v in %s", budget, seen)})
 				s.onCase(idx, 0, int64(budget), "killed:time>budget")
 				p.kill()
@@ -326,7 +368,7 @@ func runSegment(p *proc, g *group, lo, hi int, s sink, budget time.Duration, sto
 				if last < 0 {
 					return lo, false, fmt.Errorf("worker unresponsive outside a case")
 				}
-				s.onFail(failure{g: g, idx: last, class: "time>budget", site: "unresponsive", seenIn: "unresponsive", msg: "worker unresponsive, killed by the parent"})
+				s.onFail(failure{g: g, idx: last, class: "time>budget", site: "unresponsive", seenIn: "unresponsive", phase: phase, msg: "worker unresponsive, killed by the parent"})
 				s.onCase(last, 0, 0, "killed:time>budget")
 				return last + 1, false, nil
 			}
@@ -358,6 +400,7 @@ type state struct {
 	perEntry  map[string]int
 	perEntryA map[string]int
 	perKind   map[string]int
+	recStats  map[string]int // recursive-declarations family: "<entry>: <class of the input> -> <outcome>" -> cases
 	maxAlloc  uint64
 	maxAllocC string
 	maxNs     int64
@@ -385,9 +428,15 @@ func (st *state) onCase(g *group, idx int, alloc uint64, ns int64, class string)
 		gs.accepted++
 		st.perEntryA[g.t.entry]++
 	}
+	if g.kind == "recursive" && g.caseClass != nil {
+		st.recStats[g.t.entry+": "+g.caseClass(idx, "")+" -> "+class]++
+	}
 	// a stub may answer a well-formed call with an application error
 	appErr := strings.HasPrefix(g.t.entry, "stub:") && strings.HasPrefix(class, "error-reply:") && !strings.HasPrefix(class, "error-reply:_cannot_read")
-	if g.kind == "corpus" && class != "accepted" && !appErr && !strings.HasPrefix(class, "killed:") {
+	// (an accepted item whose result is unusable, a panic or an over-budget
+	// case is a violation reported on its own, not a defect of the corpus)
+	reported := strings.HasPrefix(class, "killed:") || strings.HasPrefix(class, "unusable-result:") || strings.HasPrefix(class, "panic:") || strings.HasPrefix(class, "alloc>budget:")
+	if g.kind == "corpus" && class != "accepted" && !appErr && !reported {
 		st.chk.EngineError("corpus item %s#%d is not accepted by its own decoder: %q", g.name(), idx, class)
 	}
 	killed := strings.HasPrefix(class, "killed:") || strings.HasPrefix(class, "alloc>budget:")
@@ -433,7 +482,7 @@ func (st *state) onFail(f failure) {
 		gs.timeFails++
 	}
 	g := f.g
-	if g.monotone || g.abandoned.Load() {
+	if g.monotone || g.everyCase || g.abandoned.Load() {
 		return
 	}
 	maxT := maxTimeoutsOther()
@@ -748,7 +797,7 @@ func main() {
 		}
 		return a.g.id < b.g.id
 	})
-	enumBudget := 45 * time.Second
+	enumBudget := 75 * time.Second
 	if tier == "thorough" {
 		enumBudget = 12 * time.Minute
 	}
@@ -758,7 +807,7 @@ func main() {
 		}
 	}
 	st := &state{chk: chk, groups: groups, gstat: make([]groupStat, len(groups)), fails: map[string][]failure{},
-		classes: map[string]bool{}, sampled: map[string]bool{}, perEntry: map[string]int{}, perEntryA: map[string]int{}, perKind: map[string]int{}}
+		classes: map[string]bool{}, sampled: map[string]bool{}, perEntry: map[string]int{}, perEntryA: map[string]int{}, perKind: map[string]int{}, recStats: map[string]int{}}
 	sched := &scheduler{jobs: jobs, deadline: start.Add(enumBudget)}
 	nw := runtime.NumCPU()
 	if nw > 16 {
@@ -856,8 +905,8 @@ func main() {
 				reattributed = append(reattributed, fmt.Sprintf("%s -> %v", c.fp, uniq(c.others)))
 				continue
 			}
-			chk.EngineError("fingerprint %s was observed in %d cases but no candidate reproduced it 5/5 alone in a fresh worker (%v): not reported as a violation",
-				c.fp, len(c.cands), c.tried)
+			chk.EngineError("fingerprint %s was observed in %d cases but no candidate reproduced it 5/5 alone in a fresh worker (%v; first observation: %s): not reported as a violation",
+				c.fp, len(c.cands), c.tried, c.cands[0].msg)
 			continue
 		}
 		f := *c.confirmed
@@ -871,12 +920,24 @@ func main() {
 		if listed[c.fp] {
 			how = "listed in known-findings.txt: observed in the enumeration, not re-run"
 		}
-		what := fmt.Sprintf("%s %s at %s on %d-byte input %s (%s; %d cases of this run share the fingerprint; %s; budget: alloc <= 64MiB+64*len, time <= %v)",
-			f.g.t.entry+subOf(f.g), f.class, f.site, len(in), shortHex(h), f.msg, len(c.cands), how, budget)
+		during := ""
+		if f.phase != "" {
+			during = " during phase " + f.phase
+		}
+		inputDesc := shortHex(h)
+		if !f.g.t.binary && len(in) <= 200 {
+			inputDesc = strconv.Quote(string(in))
+		}
+		caseDesc := ""
+		if f.g.describe != nil {
+			caseDesc = " [case " + f.g.describe(c.runIdx) + "]"
+		}
+		what := fmt.Sprintf("%s %s%s at %s on %d-byte input %s%s (%s; %d cases of this run share the fingerprint; %s; budget: alloc <= 64MiB+64*len, time <= %v)",
+			f.g.t.entry+subOf(f.g), f.class, during, f.site, len(in), inputDesc, caseDesc, f.msg, len(c.cands), how, budget)
 		chk.Report(c.fp, what, map[string]interface{}{
 			"entry_point": f.g.t.entry, "sub_case": f.g.t.sub, "universe": f.g.kind + ":" + f.g.label,
 			"group": f.g.name(), "index": c.runIdx, "first_failing_index_in_this_run": f.idx, "input_hex": h, "input_text": txt,
-			"class": f.class, "site": f.site, "observed": f.msg, "alloc_bytes": f.alloc,
+			"class": f.class, "site": f.site, "phase": f.phase, "case": caseDesc, "observed": f.msg, "alloc_bytes": f.alloc,
 			"cases_with_this_fingerprint": len(c.cands), "confirmation": how, "attempts": c.tried,
 			"replay": fmt.Sprintf("feed input_hex to entry point %s%s (see checks/c07/entries.go) in a process with ulimit -v %d", f.g.t.entry, subOf(f.g), vmemCapKiB),
 		})
@@ -888,13 +949,23 @@ func main() {
 	var retainCov, raceCov map[string]interface{}
 	var swg sync.WaitGroup
 	swg.Add(2)
+	skipSide := os.Getenv("C07_DEV_SKIP_SIDE") != "" // development aid only: the registered commands never set it
 	go func() {
 		defer swg.Done()
+		if skipSide {
+			retainCov = map[string]interface{}{"not_run": "C07_DEV_SKIP_SIDE"}
+			return
+		}
 		retainCov = retentionPass(lockedChk{chk, &st.mu}, streams, budget, nw)
 	}()
 	go func() {
 		defer swg.Done()
 		rb := <-raceCh
+		if skipSide && rb.err == nil {
+			os.Remove(rb.bin)
+			raceCov = map[string]interface{}{"not_run": "C07_DEV_SKIP_SIDE"}
+			return
+		}
 		if rb.err != nil {
 			st.mu.Lock()
 			chk.EngineError("race side-pass not run: %v", rb.err)
@@ -916,7 +987,7 @@ func main() {
 	st.perKind["race-pair-call"] = asInt(raceCov, "calls_run")
 
 	// ---------------------------------------------------------------- evidence
-	exhaustive := !sched.timedOut && only == nil
+	exhaustive := !sched.timedOut && only == nil && !skipSide
 	var unfinished, abandoned []string
 	total := 0
 	for _, g := range groups {
@@ -952,6 +1023,23 @@ func main() {
 			families[g.name()] = v
 		}
 	}
+	useSteps := 0
+	for _, n := range st.perEntryA {
+		useSteps += n
+	}
+	recCases := map[string]int{}
+	for _, g := range groups {
+		if g.kind == "recursive" {
+			recCases[g.t.entry] = g.n
+		}
+	}
+	var shapeNames, useNames []string
+	for _, sh := range recShapes {
+		shapeNames = append(shapeNames, sh.name)
+	}
+	for _, u := range recUses {
+		useNames = append(useNames, u.name)
+	}
 	cov := map[string]interface{}{
 		"evaluations":         st.evals + asInt(retainCov, "inputs_fed") + asInt(raceCov, "calls_run"),
 		"distinct_nontrivial": len(st.classes),
@@ -962,6 +1050,14 @@ func main() {
 			"signature.Parse: all strings of length <= 4|5 over the 16-symbol grammar alphabet; idl.ParsePackage: all sequences of <= 3|4 of 29 IDL tokens; " +
 			"nesting families in increasing depth 1..64, each up to the first depth that kills its worker. The chunks of a group that produced a failure or a case slower than 300 ms are run after all other groups. A group (entry point x universe x corpus item) is abandoned, and listed, after 16 failing cases or after " +
 			"1 (Bytes/text/token universes; every universe in the quick tier) or 4 (other universes, thorough tier) cases over the time budget. Mut groups are enumerated value-major and the three values that make count-driven loops long (10MiB, 10MiB+1, 0x7fffffff) are scheduled last. Oracle per case: no panic, no fatal error, TotalAlloc delta <= 64MiB + 64*len(input), still running after 10s = violation. " +
+			"USE step (checks/c07/use.go; key 'use_step'): every case of every universe above that its entry point ACCEPTS (nil error; count-0 maps and lists, empty strings and the minimal encodings are in the Bytes, Mut, Cut and corpus universes) is followed, inside the same worker and under the same budgets, by a use of the returned value the way the repository's consumers use it: " +
+			"a returned map must be non-nil and accept a store (capability map: SetAuthenticated as bus.authenticateCall does, the three maps of a meta-object, every map reached in a value filled by the reflection decoder), a returned interface or pointer must not be nil, a value.Value must answer Signature() and Write(), a message / meta-object / object reference / service info / capability map must be written back by the repository's writer, the bytes of a signature reader must wrap into value.Opaque, " +
+			"a signature.Type must print (Signature, SignatureIDL, TypeName), build its Marshal / Unmarshal statements, answer Reader() (and that reader must take an empty stream) and Type(), and register to a type set; the types of an IDL package must print, register and give the meta-object of every interface, the meta-objects of ParseIDL must pass the meta-object use; nil slices are not defects. " +
+			"Fingerprints: <entry>/unusable-result/<requirement> (e.g. nil-map:CapabilityMap) or <entry>/unusable-result/panic:<site>:<message>; a fatal error or a watchdog expiry after the decoder returned carries the phase in the entry component (<entry>:use/...). " +
+			"RECURSIVE DECLARATIONS family (checks/c07/recursive.go; universe 'recursive', key 'recursive_declarations'): IDL texts = the full product (identical texts once) of 17 shapes of structure references (13 recursive: self reference direct / through Vec / Map value / Map key / Tuple / nested containers / in the second member, mutual recursion of 2 structures direct / through containers / in reverse order, of 3 structures direct / through containers, a structure leading into a cycle; 4 non-recursive controls: plain, forward reference, shared sub-structure, unresolved reference) " +
+			"x 4 ways of declaring (once; the whole group twice in a row; the first structure again at the end, identical; again with other members) x 9 uses (no interface; an interface that does not mention them; method parameter; method result; signal parameter; property; inside a container parameter; through the last structure of the group; by an interface declared before the structures), " +
+			"each fed to idl.ParseIDL alone and to idl.ParsePackage alone (quick tier: ParsePackage gets the 4 uses that differ for it - none, unrelated, after, before; thorough: all 9), each followed by its use step. A runaway recursion is a fatal stack overflow: workers run with a stack limit of 16 MiB (2 MiB during this family), the case that kills its worker is known from the last B line, its phase from the last P line, a new worker is started and EVERY case of the family is run (no abandonment); " +
+			"fingerprint <entry>[:use]/fatal:stack-overflow/<class of the input> with class = [non-]recursive-struct[-declared-twice][-used-by-interface] for the parsing phase and [non-]recursive-struct for the use step (the frame that happens to hit the limit is arbitrary and is not part of the fingerprint). " +
 			"distinct_nontrivial = number of distinct (entry point, sub-case, normalised outcome) triples observed on non-empty inputs of the enumeration, " +
 			"where the outcome is 'accepted' or the returned error text with the echoed input and all digits removed (first 60 characters), or the violation class " +
 			"(the inputs of the two families below are all valid and accepted: they add to evaluations, not to distinct_nontrivial). " +
@@ -991,9 +1087,19 @@ func main() {
 		"deadline_hit":                       sched.timedOut,
 		"reattributed_observations":          reattributed,
 		"enumeration_evaluations":            st.evals,
-		"retention":                          retainCov,
-		"race_side_pass":                     raceCov,
-		"retention_and_race_s":               sideS,
+		"use_step": map[string]interface{}{
+			"accepted_cases_followed_by_a_use_of_the_result": useSteps,
+			"per_entry_point": st.perEntryA,
+		},
+		"recursive_declarations": map[string]interface{}{
+			"shapes": shapeNames, "declared": recDeclared, "uses": useNames,
+			"cases_per_entry_point":   recCases,
+			"stack_limit_bytes":       maxStackRecursive,
+			"outcomes_by_input_class": st.recStats,
+		},
+		"retention":            retainCov,
+		"race_side_pass":       raceCov,
+		"retention_and_race_s": sideS,
 	}
 	assumptions := []string{
 		"small-scope hypothesis: hostile inputs are the stated byte strings of length <= L, single (thorough: double) 4-byte field mutations and prefixes of valid encodings, and short token sequences; longer random inputs are not explored",
@@ -1004,6 +1110,9 @@ func main() {
 		"fingerprints listed in known-findings.txt are reported from the enumeration's observation; unlisted fingerprints are reported only if a witness reproduces 5/5 alone in a fresh worker",
 		"retention: 'memory kept' is the growth of runtime.MemStats.HeapAlloc after two forced collections in a GOMAXPROCS=1 worker; memory held outside the Go heap, or released only by a finalizer that needs a third collection, is not seen; a leak smaller than (256KiB + 16 x input) / 2N bytes per input (about 66 bytes quick, 7 bytes thorough) stays under the bound; only valid inputs are streamed (what a decoder keeps after REFUSING an input is not measured)",
 		"race side-pass: the decoders are plain functions over their own reader (no documented restriction to one goroutine; the bus calls them from one goroutine per connection), so any unsynchronised state shared by two calls on different readers is taken as a defect; the detector sees only the accesses that the repetitions execute (valid inputs, pairs of calls, not triples), decides on happens-before within its history window, and misses nothing that aborts the process (concurrent map faults are caught from the crash trace); it is a side-pass next to the exhaustive enumeration, not a replacement for it",
+		"use step: 'usable' means what the repository's own consumers of the entry point need (the requirements are listed in the rule); whether the decoded value is the RIGHT one is the subject of C01-C03, C09 and C18; Reader() and Type() are not called on IDL declarations (idl.InterfaceType implements them as 'not yet implemented' panics and no consumer of a parsed package calls them); statements returned by Marshal / Unmarshal are built, not rendered (they are fragments of a function body)",
+		"a runaway recursion is recognised from the Go runtime's fatal error under a goroutine stack limit of 16 MiB (2 MiB while the recursive-declarations family runs) instead of Go's default of 1 GB, which the worker's address-space cap cannot hold; an input that legitimately needed a deeper stack would be reported as an overflow (the universes nest at most 64 levels, a few KiB of stack); memory refused while a goroutine stack is being grown is classed as a stack overflow as well",
+		"recursive-declarations family: 'recursive' is decided on the text (a structure reaches itself through member types by name); when a name is declared twice the first declaration is the one in scope, which is the recursive one in every 'declared twice' variant",
 		"the Go types bool, int16, uint16 and []struct{} of the reflection decoder have no retention stream and no race sub-case (their encodings cannot be pairwise distinct over thousands of inputs); the enumeration covers them",
 	}
 	os.RemoveAll(filepath.Join(report.Root(), "replays", "C07")) // stale replay files of earlier runs
